@@ -4,6 +4,9 @@ C02.a the alias decision are_dependent is a sound over-approximation: may-overla
 C02.b no may-overlap edge is suppressed in generate_dependences except where order is provably irrelevant
 C02.c order-list construction: every store/keccak queued in the first pass is consumed by the same test in the second
 C02.d the published dependences are generate_dependences(order, location) followed only by a transitive reduction
+C02.e unification windows cover every access between the two unified ones
+C02.f dependence scans are exhaustive
+C02.g different address terms are dependent
 """
 import ast
 
